@@ -1014,9 +1014,11 @@ class Interp:
             if contains_sym(b):
                 return SymStr("<symbolic message>")
         if isinstance(op, ast.Mult) and isinstance(a, (bytes, str, list, tuple)) and is_sym(b):
-            sm = METHOD_MODELS.get((type(a), "__mul__"))
-            if sm:
-                return sm(self, a, b)
+            if isinstance(a, bytes) and len(a) == 1 and isinstance(b, SInt):
+                from .sbytes import SBytes
+                if self.truth(b < 0):
+                    return b""
+                return SBytes(b, lambda i, v=a[0]: v)
             raise Unsupported("sequence repetition by symbolic count")
         if isinstance(a, (SInt, int)) and not isinstance(a, bool) and isinstance(b, np.integer):
             b = _np_scalar_to_sym(b)
@@ -1893,6 +1895,15 @@ def m_bool(interp, v=False):
     if isinstance(v, (SInt, SU64, SReal)):
         return v != 0
     return interp.truth(v)
+
+
+@model(bytes)
+def m_bytes(interp, v=b"", *a):
+    if getattr(v, "_pyvc_symbolic", False) and type(v).__name__ == "SBytes":
+        return v
+    if contains_sym(v):
+        raise Unsupported("bytes() of a symbolic value")
+    return bytes(v, *a)
 
 
 @model(tuple)
